@@ -69,6 +69,7 @@ def _component_cases(ctx, n_sampled):
 def _replay_component(c, res):
     return dict(kind="poll_component", D=c["D"], ps=c["ps"], sm=c["sm"], m=c["m"], draws=res.get("draws"),
                 sdraws=res.get("sdraws"), perm=res.get("perm"), returned=res.get("B"), exc=res.get("exc"),
+                shim_seed=c.get("shim_seed"), ps_2d=bool(c.get("ps_2d")), protocol=res.get("protocol"),
                 how="./check C14 --replay <this file>  (re-runs pybads.poll.poll_mads_2n on these random outcomes)")
 
 
@@ -99,8 +100,6 @@ def _runs(ctx, n_seeds):
 def _monitor_runs(ctx, runs):
     for prob, seed, polls, info in runs:
         for k, p in enumerate(polls):
-            if "shim_error" in p:
-                continue
             p["forced"] = bool(prob.get("opts", {}).get("force_poll_mesh"))
             r = P.monitor_poll_step(p)
             if r:
@@ -249,12 +248,16 @@ def tie(ctx, broken):
 
 
 def _search_component(ctx, n_aimed, n_plain):
+    """the generator under a sampling shim seeded per case (so that a call that no longer follows the (entries, signs, permutation) protocol
+    can still be replayed: the replay carries the shim seed); a changed protocol alone is NOT a violation, the returned array is judged"""
+    import random
     for i in range(n_aimed + n_plain):
         c = P.aimed_case(ctx.rng, i) if i < n_aimed else P.sample_case(ctx.rng, i)
-        try:
-            res = P.run_real(c["D"], c["ps"], c["sm"], c["m"], P.SampleShim(ctx.rng), ps_2d=c["ps_2d"])
-        except P.ShimError:
-            break
+        seed = ctx.rng.randrange(1, 10 ** 9)
+        res = P.run_real(c["D"], c["ps"], c["sm"], c["m"], P.SampleShim(random.Random(seed)), ps_2d=c["ps_2d"], lenient=True)
+        if "protocol" in res and "exc" in res:
+            continue            # the shim itself refused (e.g. a third randint): nothing returned, nothing to judge
+        c = dict(c, shim_seed=seed)
         if _monitor_component(ctx, [(c, res, "search")]):
             return True
     return False
@@ -282,10 +285,14 @@ def search(ctx, broken):
 def replay(ctx, rp):
     r = rp["replay"]
     if r.get("kind") == "poll_component":
-        if r.get("draws") is None:
+        if r.get("draws") is None and r.get("shim_seed") is None:
             print("replay: no random outcomes recorded (the generator raised before drawing)")
             return 1
-        res = P.run_real(r["D"], r["ps"], r["sm"], r["m"], P.EnumShim(r["draws"], r["sdraws"], r["perm"]))
+        if r.get("draws") is None:      # the call did not follow the (entries, signs, permutation) protocol: re-run under the same seeded sampling shim
+            import random
+            res = P.run_real(r["D"], r["ps"], r["sm"], r["m"], P.SampleShim(random.Random(r["shim_seed"])), ps_2d=r.get("ps_2d", False), lenient=True)
+        else:
+            res = P.run_real(r["D"], r["ps"], r["sm"], r["m"], P.EnumShim(r["draws"], r["sdraws"], r["perm"]), lenient=True)
         print("replay: returned", res.get("B", res.get("exc")))
         msg = ("raises", res["exc"]) if "exc" in res else P.monitor_dirs(r["D"], res["B"], r["ps"], r["sm"], r["m"])
         print("replay:", msg[1] if msg else "property holds on this input now")
@@ -295,7 +302,7 @@ def replay(ctx, rp):
         polls, info = P.run_bads(prob, r["seed"])
         rc = 0
         for k, p in enumerate(polls):
-            m = P.monitor_poll_step(p) if "shim_error" not in p else ("shim", p["shim_error"])
+            m = P.monitor_poll_step(p)
             if m:
                 print(f"replay: poll step {k}: {m[1]}")
                 rc = 1
